@@ -663,11 +663,14 @@ def shrink(run, failure, mismatch=False, budget=60):
     cur = dict(failure)
     steps = 0
     progress = True
-    while progress and steps < budget:
+    # wall-clock budget as well: when every re-run of a failing case costs a time-out (a session that now hangs), sixty
+    # steps are hours; the failing input is reported as far as it was minimised
+    t_end = time.time() + getattr(mod, "SHRINK_SECONDS", 240)
+    while progress and steps < budget and time.time() < t_end:
         progress = False
         for cand in mod.shrink_candidates(cur["case"].split(" => ")[0]):
             steps += 1
-            if steps > budget:
+            if steps > budget or time.time() > t_end:
                 break
             r = rerun_single(run, cand, "shrink")
             if r is None:
